@@ -592,6 +592,7 @@ func envOr(k, d string) string {
 
 var reGoroutineLine = regexp.MustCompile(`(?m)^(panic: .*|fatal error: .*)$`)
 var reFrame = regexp.MustCompile(`(?m)^(github\.com/q191201771/[^\s(]+)\(`)
+var reLalFrame = regexp.MustCompile(`(?m)^(github\.com/q191201771/lal/[^\s(]+)\(`)
 
 // crashSignature condenses a Go crash log into "<panic message> @ <first lal frame>".
 func crashSignature(log string) string {
@@ -602,12 +603,19 @@ func crashSignature(log string) string {
 	msg = regexp.MustCompile(`0x[0-9a-f]+`).ReplaceAllString(msg, "0x?")
 	msg = regexp.MustCompile(`\[recovered\].*`).ReplaceAllString(msg, "")
 	msg = regexp.MustCompile(`\d+`).ReplaceAllString(msg, "N")
+	// the site: the first lal frame of the panicking goroutine (the stack that follows the panic line)
 	fr := ""
-	if i := strings.Index(log, msg); i >= 0 || true {
-		m := reFrame.FindStringSubmatch(log)
-		if m != nil {
-			fr = m[1]
-		}
+	rest := log
+	if loc := reGoroutineLine.FindStringIndex(log); loc != nil {
+		rest = log[loc[1]:]
+	}
+	if j := strings.Index(rest, "\n\ngoroutine "); j > 0 {
+		rest = rest[:j] // only the first goroutine's stack
+	}
+	if m := reLalFrame.FindStringSubmatch(rest); m != nil {
+		fr = m[1]
+	} else if m := reFrame.FindStringSubmatch(rest); m != nil {
+		fr = m[1]
 	}
 	return strings.TrimSpace(msg) + " @ " + fr
 }
